@@ -1659,12 +1659,22 @@ func (fr *Frame) next(st *State, g string, x *ssa.Next) *State {
 	// written inside the loop (the Go specification leaves re-insertion during iteration open)
 	if name := fr.visitedVar(rng); name != "" {
 		cur := st.get(name)
+		next := ite(ok, fmt.Sprintf("(store %s %s true)", cur, k), cur)
 		if fr.mapStableInLoop(x, m) {
 			vc.assume(implies(ok, not(fmt.Sprintf("(select %s %s)", cur, k))))
+			// ghost facts for sums over the range (see mapSumDecls): the visited set is a subset of
+			// the key set at every step, and equals it when the range is exhausted
+			if !vc.isBV() {
+				sub, full := vc.visitedPreds(m)
+				obj := fmt.Sprintf("(select %s %s)", st.get(vc.mapHeapVar(m)), fr.val(rng.X))
+				vc.assume(fmt.Sprintf("(%s %s %s)", sub, cur, obj))
+				vc.assume(implies(ok, fmt.Sprintf("(%s (store %s %s true) %s)", sub, cur, k, obj)))
+				vc.assume(implies(not(ok), fmt.Sprintf("(%s %s %s)", full, cur, obj)))
+			}
 		} else {
 			vc.note("range over map in %s: the map may be written inside the loop, keys are not assumed distinct", fr.fn.String())
 		}
-		st = fr.setVar(st, name, ite(ok, fmt.Sprintf("(store %s %s true)", cur, k), cur))
+		st = fr.setVar(st, name, next)
 	}
 	// a map that yields a key is not empty
 	msz := fmt.Sprintf("(%s_size (select %s %s))", vc.mapSort(m), st.get(vc.mapHeapVar(m)), fr.val(rng.X))
